@@ -233,7 +233,7 @@ INFO = {
                   'pl.farm.rerunid', 'pl.farm._put', 'pl.farm._cluster_sort', 'pl.farm._workers_sort', 'pl.message.make/send/dumps'],
     'bounds': {'quick': 'graph task->regression, target T1/T2, histories of <=5 events from 14 kinds (incl. a periodic event becoming due); a directed family on a task->task chain (the dependent released for one target while the other waits, then 3 free events); directed 7-event histories (two workers, a unit completes with new data, then 2 free events)', 'thorough': 'same + task->analysis graph, histories of <=6 events'},
     'assumptions': ['archiving_trigger() of the fake life-cycle machine makes the pipeline inactive until a FLIP event (the real machine leaves running); fake transports; db.next is a counter (the real shelve.next is covered by C08); context.fsm is a two-flag fake (active, waiting-on-crew false)',
-                    'one register per worker connection (worker.cluster.execute); replies arrive on fresh connections'],
+                    'one register per worker connection (worker.cluster.execute), incarnations 0 and 1 alternating over the connections; replies arrive on fresh connections'],
     'outside': ['cloud (AWS) agency', 'longer histories', 'more than ~4 concurrent workers (bounded by history length)'],
 }
 
